@@ -790,8 +790,64 @@ def run_genetic_codes(spec, acc, tier):
     acc.sample({"genetic_codes_in_one_process": spec["order"], "model": spec["model"]}, "gcodes")
 
 
+def run_site_hmm(spec, acc):
+    """rate classes joined along the alignment by the site HMM (sites_independent=False): lnL against the forward
+    algorithm over per-class column likelihoods, on a star tree with so many saturated tips that every column likelihood is
+    far below the rescaling constant of the implementation (2**-100).  Equal class probabilities only: for unequal ones the
+    implementation and the forward recursion differ by which side the switch matrix is applied from, which is not judged."""
+    from cogent3 import get_model, make_aligned_seqs, make_tree
+
+    ntips, ncol, sw = spec["ntips"], spec["ncol"], spec["switch"]
+    names = [f"t{i}" for i in range(ntips)]
+    length = spec["length"]
+    # every column holds all four bases in (nearly) equal numbers: no column is likely
+    seqs = {n: "".join("ACGT"[(i + j * (1 + i % 3)) % 4] for j in range(ncol)) for i, n in enumerate(names)}
+    case = {"part": "sitehmm", **spec}
+    acc.case(case, nontrivial=True)
+    try:
+        aln = make_aligned_seqs(seqs, moltype="dna")
+        star = lambda f: make_tree("(" + ",".join(f"{n}:{length * f}" for n in names) + ");")  # noqa: E731
+        lf = get_model("HKY85", ordered_param="rate", distribution="gamma").make_likelihood_function(star(1.0), bins=2, sites_independent=False)
+        lf.set_alignment(aln)
+        lf.set_param_rule("kappa", value=2.0, is_constant=True)
+        lf.set_param_rule("rate_shape", value=1.0, is_constant=True)
+        lf.set_param_rule("bin_switch", value=sw, is_constant=True)
+        got = float(lf.lnL)
+        rates = [float(lf.get_param_value("rate", bin=b)) for b in ("bin0", "bin1")]
+        bp = numpy.asarray(lf.get_param_value("bprobs"), float)
+        mp = lf.get_motif_probs()
+        L = []
+        for r in rates:
+            one = get_model("HKY85").make_likelihood_function(star(r))
+            one.set_motif_probs(mp)
+            one.set_alignment(aln)
+            one.set_param_rule("kappa", value=2.0, is_constant=True)
+            L.append(numpy.asarray(one.get_full_length_likelihoods(), float))
+    except Exception as e:  # noqa: BLE001
+        acc.fail(f"site-HMM likelihood function raised {type(e).__name__}", case, {"error": str(e)[:300]})
+        return
+    L = numpy.array(L)
+    T = (1 - sw) * numpy.eye(2) + sw * numpy.outer(numpy.ones(2), bp)
+    alpha, want = bp * L[:, 0], 0.0
+    for i in range(1, ncol + 1):
+        tot = alpha.sum()
+        want += math.log(tot)
+        alpha = alpha / tot
+        if i < ncol:
+            alpha = (alpha @ T) * L[:, i]
+    acc.outcome(("sitehmm", round(want, 3), bool(L.max() < 2.0 ** -100)))
+    acc.count("columns_compared", ncol)
+    if not (math.isfinite(got) and abs(got - want) <= 1e-9 * abs(want)):
+        acc.fail(f"site-HMM lnL differs from the forward algorithm over the per-class column likelihoods [column likelihoods below 2**-100: {bool(L.max() < 2.0 ** -100)}]",
+                 case, {"got": got, "want": want, "largest column likelihood": float(L.max())})
+    acc.sample({"site_hmm": True, **spec}, "sitehmm")
+
+
 def shards(tier, seed):
     heavy, out = [], []
+    for ntips, length in ((4, 0.3), (80, 3.0)):
+        for sw in (1.0, 0.3):
+            out.append({"part": "sitehmm", "family": "nuc", "ntips": ntips, "ncol": 60, "length": length, "switch": sw})
     # codon models first: they are the longest shards (61 states, model construction 1-4 s per process)
     for name in F.CODON_MODELS + [n for n in CUSTOM if F.MODELS[n][0] == "codon"]:
         for part in ("params", "lengths", "bins", "options"):
@@ -852,6 +908,9 @@ def shard_configs(spec, tier):
 
 
 def run_shard(spec, acc):
+    if spec["part"] == "sitehmm":
+        run_site_hmm({k: spec[k] for k in ("ntips", "ncol", "length", "switch")}, acc)
+        return
     if spec["part"] == "gcodes":
         run_genetic_codes(spec, acc, spec["tier"])
         return
@@ -867,6 +926,9 @@ def replay(case):
     from vf.kernel.runner import Acc
 
     acc = Acc()
+    if case.get("part") == "sitehmm":
+        run_site_hmm({k: case[k] for k in ("ntips", "ncol", "length", "switch")}, acc)
+        return [(sig, rec["cases"][0]["detail"]) for sig, rec in acc.failures.items()]
     for g in case.get("built_before") or []:
         make_model(case["model"], {"gc": g} if g != 1 else {})  # re-create the history of the recorded case
     gc = (case.get("model_kw") or {}).get("gc")
